@@ -202,7 +202,12 @@ func OpenBucket(urlStr string, bucketName string, mode OpenMode) (b *Bucket, err
 	exists, bucketCopy := registerBucket(bucket)
 	// someone else beat registered the bucket in the registry, that's OK we'll close ours
 	if exists {
-		bucket.Close(ctx)
+		// Ours was never registered, so it must not go through Close: that would release a reference of the
+		// registered bucket - the one just taken for the copy being returned.
+		bucket.mutex.Lock()
+		bucket._closeSqliteDB()
+		bucket.mutex.Unlock()
+		return bucketCopy, nil
 	}
 	// only schedule expiration if bucket is not new. This doesn't need to be locked because only one bucket will execute this code.
 	if vers != 0 {
